@@ -171,7 +171,7 @@ impl MarketConfig {
         self.funding_fee_threshold_for_decrease_funding =
             constants::DEFAULT_FUNDING_FEE_THRESHOLD_FOR_DECREASE_FUNDING;
 
-        self.reserve_factor = constants::DEFAULT_RECEIVER_FACTOR;
+        self.reserve_factor = constants::DEFAULT_RESERVE_FACTOR;
         self.open_interest_reserve_factor = constants::DEFAULT_OPEN_INTEREST_RESERVE_FACTOR;
 
         self.max_pnl_factor_for_long_deposit = constants::DEFAULT_MAX_PNL_FACTOR_FOR_LONG_DEPOSIT;
